@@ -2,6 +2,7 @@ mod g_adss;
 mod g_codec;
 mod g_star;
 mod g_fp;
+mod g_ggm;
 mod g_sharks;
 mod layout;
 mod util;
@@ -31,6 +32,7 @@ fn main() {
         "C03" => g_star::gen_c03(seed, thorough, only, &mut out),
         "C04" => g_star::gen_c04(seed, thorough, only, &mut out),
         "C05" => g_star::gen_c05(seed, thorough, only, &mut out),
+        "C10" | "C11" => g_ggm::gen(seed, thorough, only, &mut out),
         "C08" => g_codec::gen(seed, thorough, only, &mut out),
         "C09" => {
           g_codec::gen(seed ^ 0x9, thorough, only, &mut out);
